@@ -35,8 +35,8 @@ MEDIABOX_POOL = ((0, 0, 200, 100), (10, 20, 210, 120), (-10, -20, 90, 80))
 MEDIABOX_REVERSED = ((200, 100, 0, 0), (210, 20, 10, 120), (10, 120, 210, 20))
 
 BOUNDS = {
-    "quick": {"single_attr_max_nodes": 4, "joint4_nodes": 2, "pair_max_nodes": 0, "dev_nodes": (5,), "dev_bound": 2, "cycle_max_nodes": 5},
-    "thorough": {"single_attr_max_nodes": 5, "joint4_nodes": 2, "pair_max_nodes": 3, "dev_nodes": (5, 6), "dev_bound": 2, "cycle_max_nodes": 6},
+    "quick": {"resources_max_nodes": 3, "single_attr_max_nodes": 4, "joint4_nodes": 2, "pair_max_nodes": 0, "dev_nodes": (5,), "dev_bound": 2, "cycle_max_nodes": 5},
+    "thorough": {"resources_max_nodes": 4, "single_attr_max_nodes": 5, "joint4_nodes": 2, "pair_max_nodes": 3, "dev_nodes": (5, 6), "dev_bound": 2, "cycle_max_nodes": 6},
 }
 
 META = {
@@ -47,7 +47,9 @@ META = {
         "(thorough) every attribute pair on trees <= pair_max_nodes nodes; trees of dev_nodes nodes (leaf types included as "
         "choices) with <= dev_bound deviations from 'root only', enumerated by the choice explorer. cycle part: every tree "
         "<= cycle_max_nodes nodes x every /Pages node x every Kids position x every target node for one extra Kids entry. "
-        "geometry part: 13 Rotate values x 6 MediaBoxes (3 of them given by reversed corners) x {on page, on parent} x CropBox {absent, present} x 3 spellings, "
+        "resources part: every tree <= resources_max_nodes nodes x Resources {absent, A, B, explicit << >>}^nodes x {direct, indirect}, all pages using the "
+        "same font resource name, rendered through one interpreter (low level and extract_pages): a page with empty/absent effective Resources must not be "
+        "drawn with another page's font. geometry part: 13 Rotate values x 6 MediaBoxes (3 of them given by reversed corners) x {on page, on parent} x CropBox {absent, present} x 3 spellings, "
         "through PDFPageAggregator(laparams=None) and extract_pages; the rotation= argument of extract_text_to_fp over {0,90,180,270,360,-90,450} x the 13 page Rotate values x 6 MediaBoxes, observed through the XML output parsed back (page box, a filled rectangle, the glyph) against (Rotate + rotation) mod 360. selection part: 3 four-page trees x 64 page_numbers sets "
         "(all subsets of {0..4}, with and without an out-of-range 7) x maxpages 0..5 x {get_pages, extract_text, extract_pages}. "
         "A case is one document (or one selection call); non-trivial = at least one page takes at least one attribute from an "
@@ -221,6 +223,9 @@ def judge_render(e: Dict[str, Any], r: Any, cyc: str = "") -> List[Tuple[str, An
         return [(f"C04/{cyc}ltpage-bbox:rotate={rot}", ebbox, bbox, "LTPage.bbox is not the MediaBox moved to the origin and turned by Rotate")]
     if len(chars) != 1 or chars[0][0] != e["letter"]:
         return [(f"C04/{cyc}page-content", e["letter"], [c[0] for c in chars], "the page does not show its own glyph")]
+    if e["font"] is None and chars[0][1] in pt.FONT_NAMES.values():
+        return [(f"C04/{cyc}render-resources-leak", "no font of any Resources dictionary (the page's effective Resources are empty)", chars[0][1],
+                 "a page whose effective Resources are empty/absent is drawn with a font from another page's Resources")]
     if e["font"] is not None and chars[0][1] != e["font"]:
         return [(f"C04/{cyc}render-resources", e["font"], chars[0][1], "the glyph is not drawn with the font of the effective Resources")]
     if not num_eq(emat, chars[0][2]):
@@ -390,6 +395,38 @@ def fam_cycle(st, tier, n, tree_index):
                 first = False
                 st.states += 1
                 st.transitions += 1
+
+
+RES_POOL = (None, "A", "B", "E")  # absent, two font dictionaries, an explicit empty dictionary
+
+
+def fam_resources(st, tier, n, lo, hi):
+    """every tree with n nodes x Resources in {absent, A, B, << >>}^n; every page shows text with the same resource name
+    /F1; pages are rendered one after the other through one interpreter (low level and extract_pages), so a page with
+    empty/absent effective Resources follows and precedes pages with fonts in both orders"""
+    first = True
+    for nodes in list(pt.typed_trees(n))[lo:hi]:
+        for combo in itertools.product(RES_POOL, repeat=n):
+            attrs: List[Dict[str, Any]] = [{"MediaBox": (0, 0, 200, 100)} if i == 0 else {} for i in range(n)]
+            for i, v in enumerate(combo):
+                attrs[i]["Resources"] = v
+            for spelling in (0, 1):
+                data = pt.build(nodes, attrs, spell_all(spelling))
+                case = {"part": "geometry", "nodes": nodes, "attrs": attrs, "spelling": spelling, "data": data}
+                res = judge_geometry(case)
+                for sig, e, o, what in res:
+                    st.violation(sig, case, e, o, what)
+                exp, _ = expected_pages(nodes, attrs)
+                fonts = tuple(e["font"] for e in exp)
+                st.case(None, nontrivial=len(set(fonts)) > 1, outcome=("res", fonts, bool(res)))
+                st.states += 1
+                st.transitions += 2
+                st.traces += 1
+                if first and len(set(fonts)) > 1:
+                    st.sample({"resources_family": True, "nodes": [(x["kind"], x["parent"]) for x in nodes], "Resources": combo, "fonts": fonts})
+                    first = False
+            st.states += n
+            st.transitions += n
 
 
 GEOM_SPELL = (0, 1, 2)
@@ -604,6 +641,10 @@ def shards(tier):
         step = 1 if n >= 6 else 4
         out += [("cycle", n, lo, min(lo + step, nt)) for lo in range(0, nt, step)]
     out += [("geom", mi) for mi in range(len(MEDIABOX_POOL) + len(MEDIABOX_REVERSED))]
+    for n in range(2, b["resources_max_nodes"] + 1):
+        nt = sum(1 for _ in pt.typed_trees(n))
+        step = nt if n < 4 else 2
+        out += [("res", n, lo, min(lo + step, nt)) for lo in range(0, nt, step)]
     out += [("rotarg", mi) for mi in range(len(MEDIABOX_POOL) + len(MEDIABOX_REVERSED))]
     out += [("sel", ti, entry) for ti in range(3) for entry in ("get_pages", "extract_text", "extract_pages")]
     return out
@@ -650,6 +691,8 @@ def run_shard(shard, tier, st):
             fam_cycle(st, tier, n, ti)
     elif fam == "rotarg":
         fam_rotation(st, tier, shard[1])
+    elif fam == "res":
+        fam_resources(st, tier, shard[1], shard[2], shard[3])
     elif fam == "geom":
         fam_geometry(st, tier, shard[1])
     elif fam == "sel":
